@@ -19,6 +19,9 @@ pub enum Shape {
     Clustered(u8),
     /// log-uniform over the given number of decades (both signs)
     LogUniform(u16),
+    /// both ends of the finite f64 range (|v| within a few binades of f64::MAX, both signs, +-MAX itself), mixed
+    /// with a few small values: differences and sums of neighbouring values overflow. Not scaled or shifted.
+    Extreme,
 }
 
 #[derive(Debug, Clone, Serialize, Deserialize)]
@@ -40,6 +43,7 @@ pub fn shape_strategy() -> impl Strategy<Value = Shape> {
         3 => (1u8..=12).prop_map(Shape::Dups),
         2 => (1u8..=8).prop_map(Shape::Clustered),
         1 => (1u16..=40).prop_map(Shape::LogUniform),
+        1 => Just(Shape::Extreme),
     ]
 }
 
@@ -95,6 +99,27 @@ pub fn gen_values(r: &Run) -> Vec<f64> {
                 let s = if sm.below(2) == 0 { 1.0 } else { -1.0 };
                 out.push(s * 10f64.powf(e));
             }
+        }
+        Shape::Extreme => {
+            // mode 0: only |v| in (MAX/2, MAX], both signs (every negative/positive pair differs by more than
+            // f64::MAX, nothing in between); mode 1: a few binades below MAX; mode 2: plus a few small values in
+            // between; mode 3: many copies of +-MAX itself
+            let mode = sm.below(4);
+            for _ in 0..n {
+                let s = if sm.below(2) == 0 { 1.0 } else { -1.0 };
+                let top = s * f64::MAX * (0.5 + 0.5 * sm.unit());
+                let band = top / (1u64 << sm.below(3)) as f64;
+                let v = match (mode, sm.below(8)) {
+                    (0, _) => top,
+                    (2, 5) => s * sm.unit(),
+                    (2, 6) => s * f64::MAX,
+                    (2, 7) => s * 1e300 * sm.unit(),
+                    (3, 4..=7) => s * f64::MAX,
+                    _ => band,
+                };
+                out.push(v);
+            }
+            return out;
         }
     }
     for v in out.iter_mut() {
